@@ -403,6 +403,7 @@ def e4(ck: Check) -> None:
                 continue
             facts = fm.facts(e.cfgn)
             for test, pol, b in facts:
+                test, pol = strip_not(test, pol)
                 if not pol or b.loop is not None:
                     continue
                 tnode = fm.cfg.nodes[next(iter(fm.cfg.g.predecessors(b.id)))]
@@ -420,6 +421,13 @@ def e4(ck: Check) -> None:
                       ("'no attractor here' is recorded under a guard that can be true after a failed search: "
                        + "; ".join(probs[:3])) if probs else
                       f"empty mark guarded by `{text(test)[:60]}`: emptiness test or False on every definition")
+
+
+def strip_not(test: ast.AST, pol: bool):
+    """`not X` taken on its false edge is X taken on its true edge."""
+    while isinstance(test, ast.UnaryOp) and isinstance(test.op, ast.Not):
+        test, pol = test.operand, not pol
+    return test, pol
 
 
 def _is_config_test(fm: FuncModel, test: ast.AST, at) -> bool:
